@@ -222,8 +222,10 @@ Record st := St {
   li : lidx; si : sidx;      (* committed index state *)
   lov : overlay; sov : overlay;
   txs : gmap nat batch;      (* open transactions *)
-  mode1 : bool               (* true: the DB itself is the index observable; false: a separate
+  mode1 : bool;              (* true: the DB itself is the index observable; false: a separate
                                 observable that only carries replicated writes (core wiring) *)
+  dedup : bool               (* Get skips a value listed twice (tree after fix F16); false = the
+                                pinned upstream code, which appends the bucket once per listing *)
 }.
 
 Definition view (s : st) (t : nat) : table :=
@@ -235,12 +237,21 @@ Definition is_open (s : st) (t : nat) : bool :=
   match t with O => true | _ => bool_decide (is_Some (txs s !! t)) end.
 
 (* Index.Get(tx, values...) of each index *)
-Definition l_get_committed (vs : list Z) (l : lidx) : list N := flat_map (fun v => l_get1 v l) vs.
-Definition s_get_committed (vs : list Z) (x : sidx) : list N := flat_map (fun v => s_get1 v x) vs.
+(* values[:i] already contains v: skipped by the fixed Get *)
+Fixpoint dedupZ (seen vs : list Z) : list Z :=
+  match vs with
+  | [] => []
+  | v :: tl => if inZ v seen then dedupZ seen tl else v :: dedupZ (seen ++ [v]) tl
+  end.
+Definition get_vals (dd : bool) (vs : list Z) : list Z := if dd then dedupZ [] vs else vs.
+Definition l_get_committed (dd : bool) (vs : list Z) (l : lidx) : list N :=
+  flat_map (fun v => l_get1 v l) (get_vals dd vs).
+Definition s_get_committed (dd : bool) (vs : list Z) (x : sidx) : list N :=
+  flat_map (fun v => s_get1 v x) (get_vals dd vs).
 Definition idx_get (s : st) (t : nat) (i : iid) (vs : list Z) : list N :=
   match i with
-  | IA => ov_resolve t (l_get_committed vs (li s)) vs (lov s)
-  | IB => ov_resolve t (s_get_committed vs (si s)) vs (sov s)
+  | IA => ov_resolve t (l_get_committed (dedup s) vs (li s)) vs (lov s)
+  | IB => ov_resolve t (s_get_committed (dedup s) vs (si s)) vs (sov s)
   end.
 (* what idx.Filter's resolver hands to the filter machinery: nil for no values *)
 Definition renv := iid -> list Z -> option (list N).
@@ -471,8 +482,8 @@ Definition ord_holds (desc : bool) (cursor : option Z) (f : option ftree) (r : r
 Definition obs1 (s : st) (w : N * option row) : st :=
   match w.2 with
   | Some r => St (rows s) (l_put w.1 (ra r) (li s)) (s_set w.1 (rb r) (si s))
-                 (lov s) (sov s) (txs s) (mode1 s)
-  | None => St (rows s) (l_del w.1 (li s)) (s_del w.1 (si s)) (lov s) (sov s) (txs s) (mode1 s)
+                 (lov s) (sov s) (txs s) (mode1 s) (dedup s)
+  | None => St (rows s) (l_del w.1 (li s)) (s_del w.1 (si s)) (lov s) (sov s) (txs s) (mode1 s) (dedup s)
   end.
 Definition observe (b : batch) (s : st) : st := fold_left obs1 b s.
 
@@ -482,22 +493,22 @@ Definition w_set (t : nat) (r : row) (s : st) : st :=
   match t with
   | O =>
       (* db.Set = one-op transaction: apply, notify (mode 1), then stage with nil identity *)
-      let s1 := St (<[k := r]> (rows s)) (li s) (si s) (lov s) (sov s) (txs s) (mode1 s) in
+      let s1 := St (<[k := r]> (rows s)) (li s) (si s) (lov s) (sov s) (txs s) (mode1 s) (dedup s) in
       let s2 := if mode1 s then obs1 s1 (k, Some r) else s1 in
-      St (rows s2) (l_put k (ra r) (li s2)) (s_set k (rb r) (si s2)) (lov s2) (sov s2) (txs s2) (mode1 s2)
+      St (rows s2) (l_put k (ra r) (li s2)) (s_set k (rb r) (si s2)) (lov s2) (sov s2) (txs s2) (mode1 s2) (dedup s2)
   | _ =>
       St (rows s) (li s) (si s) (ov_stage t k (ra r) (lov s)) (ov_stage t k (rb r) (sov s))
-         (<[t := default [] (txs s !! t) ++ [(k, Some r)]]> (txs s)) (mode1 s)
+         (<[t := default [] (txs s !! t) ++ [(k, Some r)]]> (txs s)) (mode1 s) (dedup s)
   end.
 Definition w_del (t : nat) (k : N) (s : st) : st :=
   match t with
   | O =>
-      let s1 := St (delete k (rows s)) (li s) (si s) (lov s) (sov s) (txs s) (mode1 s) in
+      let s1 := St (delete k (rows s)) (li s) (si s) (lov s) (sov s) (txs s) (mode1 s) (dedup s) in
       let s2 := if mode1 s then obs1 s1 (k, None) else s1 in
-      St (rows s2) (l_del k (li s2)) (s_del k (si s2)) (lov s2) (sov s2) (txs s2) (mode1 s2)
+      St (rows s2) (l_del k (li s2)) (s_del k (si s2)) (lov s2) (sov s2) (txs s2) (mode1 s2) (dedup s2)
   | _ =>
       St (rows s) (li s) (si s) (ov_unstage t k (lov s)) (ov_unstage t k (sov s))
-         (<[t := default [] (txs s !! t) ++ [(k, None)]]> (txs s)) (mode1 s)
+         (<[t := default [] (txs s !! t) ++ [(k, None)]]> (txs s)) (mode1 s) (dedup s)
   end.
 
 (* flush of one delta into committed index state *)
@@ -509,7 +520,7 @@ Definition s_flush (d : delta) (x : sidx) : sidx :=
 (* kv commit of t: apply the batch; in mode 1 the index observer replays it *)
 Definition kv_commit (t : nat) (s : st) : st :=
   let b := default [] (txs s !! t) in
-  let s1 := St (apply_batch b (rows s)) (li s) (si s) (lov s) (sov s) (txs s) (mode1 s) in
+  let s1 := St (apply_batch b (rows s)) (li s) (si s) (lov s) (sov s) (txs s) (mode1 s) (dedup s) in
   if mode1 s then observe b s1 else s1.
 (* runCleanups(committed): drop the deltas; flush them when committed *)
 Definition cleanups (committed : bool) (t : nat) (s : st) : st :=
@@ -519,7 +530,7 @@ Definition cleanups (committed : bool) (t : nat) (s : st) : st :=
   let x := match sov s !! t with
            | Some d => if committed && negb (bool_decide (d_state d = ∅)) then s_flush d (si s) else si s
            | None => si s end in
-  St (rows s) l x (delete t (lov s)) (delete t (sov s)) (delete t (txs s)) (mode1 s).
+  St (rows s) l x (delete t (lov s)) (delete t (sov s)) (delete t (txs s)) (mode1 s) (dedup s).
 
 Definition commit (t : nat) (s : st) : st := cleanups true t (kv_commit t s).
 Definition abort (t : nat) (s : st) : st := cleanups false t s.
@@ -535,11 +546,11 @@ Definition s_populate (m : table) : sidx :=
   SIdx (isort (fun a b => Z.leb a.1 b.1) (map (fun r => (rb r, rk r)) rs))
        (list_to_map (map (fun r => (rk r, rb r)) rs)).
 Definition reopen (s : st) : st :=
-  St (rows s) (l_populate (rows s)) (s_populate (rows s)) ∅ ∅ ∅ (mode1 s).
+  St (rows s) (l_populate (rows s)) (s_populate (rows s)) ∅ ∅ ∅ (mode1 s) (dedup s).
 
 (* a write applied to the kv store outside any gorp writer, announced through the observable *)
 Definition replicate (b : batch) (s : st) : st :=
-  observe b (St (apply_batch b (rows s)) (li s) (si s) (lov s) (sov s) (txs s) (mode1 s)).
+  observe b (St (apply_batch b (rows s)) (li s) (si s) (lov s) (sov s) (txs s) (mode1 s) (dedup s)).
 
 (* ------------------------------------------------------------------ operations *)
 Inductive op :=
@@ -577,7 +588,7 @@ Definition step (s : st) (o : op) : st * out :=
       match t with
       | O => (s, OSkip)
       | _ => if is_open s t then (s, OSkip)
-             else (St (rows s) (li s) (si s) (lov s) (sov s) (<[t := []]> (txs s)) (mode1 s), ODone 0)
+             else (St (rows s) (li s) (si s) (lov s) (sov s) (<[t := []]> (txs s)) (mode1 s) (dedup s), ODone 0)
       end
   | Create t rs =>
       if is_open s t then (fold_left (fun acc r => w_set t r acc) rs s, ODone 0) else (s, OSkip)
@@ -646,6 +657,6 @@ Fixpoint run (s : st) (ops : list op) : st :=
   end.
 
 (* the state OpenTable produces over pre-existing rows *)
-Definition init (m1 : bool) (seed : list row) : st :=
+Definition init (m1 dd : bool) (seed : list row) : st :=
   let m : table := list_to_map (map (fun r => (rk r, r)) (rev seed)) in
-  St m (l_populate m) (s_populate m) ∅ ∅ ∅ m1.
+  St m (l_populate m) (s_populate m) ∅ ∅ ∅ m1 dd.
